@@ -28,8 +28,8 @@ RULE = ('E2: every signature of the <=3-named universe over a,b,c (1 972 signatu
         '(n>0 or names or a flag) and the outcome was compared on >=1 shape, or the call raised; distinct by '
         '(signature, n, names tuple, flags).')
 ASSUMPTIONS = ['names naming a positional-only parameter are excluded (as the property states)',
-               'with hide_args the hidden positional count is free and with hide_kwargs the hidden keyword set is free '
-               '(most lenient reading of "for some choice of the hidden arguments")']
+               'with hide_args any number of hidden positionals may follow the n explicit ones and with hide_kwargs any hidden '
+               'keyword set may join the named arguments ("for some choice of the hidden arguments")']
 
 FOREIGN = ('q', 'zz')
 KWNAMES = ('a', 'b', 'c', 'q', 'zz')
@@ -233,7 +233,7 @@ def check_flagged(spec, sig, n, names, fl, shapes, stats, enum):
         if not rb.accepts(m, K):
             continue
         ok = False
-        for total in (range(0, L + 2) if ha else (n,)):
+        for total in (range(n, L + 3) if ha else (n,)):      # the n explicit positionals are passed whatever is hidden (F23)
             extra = [k for k in sigkw if k not in K] if hk else []
             base_names = tuple(names)      # named arguments are passed whatever is hidden (F19)
             for r in range(len(extra) + 1):
